@@ -20,6 +20,9 @@ pub enum Stmt {
     Defer(Vec<Stmt>),
     Block(Option<u32>, Vec<Stmt>),
     Loop(u32, Vec<Stmt>),
+    /// `l: while { cond-statements; <decision> } { body }`: the condition is a block of its own
+    /// (defers, jumps to `l` or further out). NOT in the Lean model (oracle only).
+    LoopC(u32, Vec<Stmt>, Vec<Stmt>),
     If(Vec<Stmt>),
     Brk(u32),
     Cont(u32),
@@ -50,6 +53,7 @@ pub fn sexp(stmts: &[Stmt]) -> String {
                 s.push_str(&format!("(block {} {})", l.map(|x| x.to_string()).unwrap_or("-".into()), sexp_inner(b)));
             }
             Stmt::Loop(l, b) => s.push_str(&format!("(loop {l} {})", sexp_inner(b))),
+            Stmt::LoopC(l, c, b) => s.push_str(&format!("(loopc {l} {} {})", sexp_inner(c), sexp_inner(b))),
             Stmt::If(b) => s.push_str(&format!("(if {})", sexp_inner(b))),
             Stmt::Brk(l) => s.push_str(&format!("(brk {l})")),
             Stmt::Cont(l) => s.push_str(&format!("(cont {l})")),
@@ -88,6 +92,13 @@ fn capy(stmts: &[Stmt], ind: usize, out: &mut String) {
             }
             Stmt::Loop(l, b) => {
                 out.push_str(&format!("{pad}`b{l}: while nxt(d, di) {{\n"));
+                capy(b, ind + 1, out);
+                out.push_str(&format!("{pad}}}\n"));
+            }
+            Stmt::LoopC(l, c, b) => {
+                out.push_str(&format!("{pad}`b{l}: while {{\n"));
+                capy(c, ind + 1, out);
+                out.push_str(&format!("{pad}    nxt(d, di)\n{pad}}} {{\n"));
                 capy(b, ind + 1, out);
                 out.push_str(&format!("{pad}}}\n"));
             }
@@ -139,6 +150,7 @@ fn count(stmts: &[Stmt], f: &dyn Fn(&Stmt) -> bool) -> usize {
             (if f(s) { 1 } else { 0 })
                 + match s {
                     Stmt::Block(_, b) | Stmt::Loop(_, b) | Stmt::If(b) | Stmt::Defer(b) => count(b, f),
+                    Stmt::LoopC(_, c, b) => count(c, f) + count(b, f),
                     _ => 0,
                 }
         })
@@ -167,6 +179,11 @@ fn declared(stmts: &[Stmt], out: &mut BTreeSet<u32>) {
                 out.insert(*l);
                 declared(b, out);
             }
+            Stmt::LoopC(l, c, b) => {
+                out.insert(*l);
+                declared(c, out);
+                declared(b, out);
+            }
             Stmt::If(b) => declared(b, out),
             _ => {}
         }
@@ -181,6 +198,10 @@ fn escaping(stmts: &[Stmt], out: &mut BTreeSet<&'static str>) {
         for s in stmts {
             match s {
                 Stmt::Block(_, b) | Stmt::Loop(_, b) | Stmt::If(b) => walk(b, decl, out),
+                Stmt::LoopC(_, c, b) => {
+                    walk(c, decl, out);
+                    walk(b, decl, out);
+                }
                 Stmt::Brk(0) => {
                     out.insert("return");
                 }
@@ -243,6 +264,17 @@ fn shapes(stmts: &[Stmt], in_defer: bool, out: &mut BTreeSet<String>) {
                 earlier_defer = true;
             }
             Stmt::Block(_, b) | Stmt::Loop(_, b) | Stmt::If(b) => shapes(b, in_defer, out),
+            Stmt::LoopC(_, c, b) => {
+                out.insert("loop-condition-is-a-block".into());
+                if any(c, &is_jump) {
+                    out.insert("loop-condition-is-a-block:with-jump".into());
+                }
+                if any(c, &|s| matches!(s, Stmt::Defer(_))) {
+                    out.insert("loop-condition-is-a-block:with-defer".into());
+                }
+                shapes(c, in_defer, out);
+                shapes(b, in_defer, out);
+            }
             _ => {}
         }
     }
@@ -348,6 +380,56 @@ impl<'a> Run<'a> {
                                 self.dynamic.insert("ran:continue-inside-defer-body");
                             }
                         }
+                        s => return s,
+                    }
+                }
+            }
+            Stmt::LoopC(l, c, b) => {
+                let mut guard = 0;
+                loop {
+                    guard += 1;
+                    if guard > 10_000 {
+                        return Sig::Normal;
+                    }
+                    // the condition block: its statements, then the decision (the tail
+                    // expression), then what was deferred in it
+                    let mut cregs: Vec<&'a [Stmt]> = vec![];
+                    let mut sig = Sig::Normal;
+                    for st in c {
+                        sig = self.stmt(st, &mut cregs);
+                        if sig != Sig::Normal {
+                            break;
+                        }
+                    }
+                    let go = if sig == Sig::Normal { self.decide() } else { false };
+                    for d in cregs.iter().rev() {
+                        self.in_defer += 1;
+                        let _ = self.block(d);
+                        self.in_defer -= 1;
+                    }
+                    match sig {
+                        Sig::Normal => {
+                            if !go {
+                                return Sig::Normal;
+                            }
+                        }
+                        Sig::Brk(t) if t == *l => {
+                            self.dynamic.insert("ran:break-in-loop-condition");
+                            return Sig::Normal;
+                        }
+                        Sig::Cont(t) if t == *l => {
+                            self.dynamic.insert("ran:continue-in-loop-condition");
+                            continue;
+                        }
+                        s => {
+                            self.dynamic.insert("ran:jump-out-of-loop-condition");
+                            return s;
+                        }
+                    }
+                    match self.block(b) {
+                        Sig::Normal => {}
+                        Sig::Brk(t) if t == *l => return Sig::Normal,
+                        Sig::Cont(t) if t == *l => {}
                         s => return s,
                     }
                 }
@@ -661,6 +743,59 @@ impl<'a> Gen<'a> {
         out.push(Stmt::Print(self.ev()));
         out
     }
+    /// A loop whose CONDITION is a block with a jump of its own (`break` / `continue` of that loop,
+    /// or a jump further out), inside frames that hold defers (fix 2c2d7e7: such a `break` ran the
+    /// defers of every enclosing block).
+    fn cond_loop(&mut self) -> Vec<Stmt> {
+        let lo = self.label();
+        let l = self.label();
+        let mut cond = vec![];
+        if self.rng.chance(1, 3) {
+            cond.push(Stmt::Defer(vec![Stmt::Print(self.ev())]));
+        }
+        if self.rng.chance(1, 3) {
+            cond.push(Stmt::Print(self.ev()));
+        }
+        let j = match self.rng.below(6) {
+            0 | 1 | 2 => Stmt::Brk(l),
+            3 => Stmt::Cont(l),
+            4 => Stmt::Brk(lo),
+            _ => Stmt::Brk(0),
+        };
+        cond.push(Stmt::If(if self.rng.chance(1, 3) { vec![Stmt::Print(self.ev()), j] } else { vec![j] }));
+        let mut body = vec![];
+        if self.rng.chance(2, 3) {
+            body.push(Stmt::Defer(vec![Stmt::Print(self.ev())]));
+        }
+        body.push(Stmt::Print(self.ev()));
+        if self.rng.chance(1, 3) {
+            body.push(Stmt::If(vec![if self.rng.chance(1, 2) { Stmt::Cont(l) } else { Stmt::Brk(l) }]));
+        }
+        let mut frame = vec![];
+        frame.push(Stmt::Defer(if self.rng.chance(3, 4) { vec![Stmt::Print(self.ev())] } else { self.defer_body(2, 0) }));
+        if self.rng.chance(1, 3) {
+            frame.push(Stmt::Defer(vec![Stmt::Print(self.ev())]));
+        }
+        frame.push(Stmt::LoopC(l, cond, body));
+        frame.push(Stmt::Print(self.ev()));
+        let mut out = vec![];
+        if self.rng.chance(1, 2) {
+            out.push(Stmt::Defer(vec![Stmt::Print(self.ev())]));
+        }
+        match self.rng.below(3) {
+            0 => out.push(Stmt::Block(Some(lo), frame)),
+            1 => {
+                frame.insert(0, Stmt::Print(self.ev()));
+                out.push(Stmt::Loop(lo, frame));
+            }
+            _ => {
+                // `lo` must exist for `break lo`: wrap in a labelled block without defers
+                out.push(Stmt::Block(Some(lo), vec![Stmt::Block(None, frame)]));
+            }
+        }
+        out.push(Stmt::Print(self.ev()));
+        out
+    }
     fn ev(&mut self) -> u32 {
         self.next_event += 1;
         self.next_event
@@ -679,6 +814,9 @@ pub fn gen_program(rng: &mut Rng) -> Vec<Stmt> {
     }
     if which < 6 {
         return g.nested_loops();
+    }
+    if which < 7 {
+        return g.cond_loop();
     }
     let mut ctx = vec![];
     g.stmts(0, &mut ctx, false, 0)
@@ -735,6 +873,10 @@ fn corpus() -> Vec<Vec<Stmt>> {
         // outer body deferred something before the inner loop (both orders of the two jumps)
         vec![d(1), Loop(2, vec![d(3), Loop(4, vec![If(vec![Cont(2)]), If(vec![Brk(4)]), Print(5)]), Print(6)]), Print(7)],
         vec![Loop(2, vec![d(3), d(8), Block(None, vec![d(9), Loop(4, vec![If(vec![Cont(4)]), If(vec![Cont(2)]), Print(5)])]), Print(6)]), Print(7)],
+        // `break` / `continue` inside a block CONDITION of a `while` (fix 2c2d7e7: the function's
+        // defers ran at the jump and again at the end)
+        vec![d(1), LoopC(2, vec![If(vec![Brk(2)])], vec![d(3), Print(4)]), Print(5)],
+        vec![d(1), Block(Some(6), vec![d(7), LoopC(2, vec![d(8), If(vec![Cont(2)]), If(vec![Brk(6)])], vec![d(3), Print(4)]), Print(5)]), Print(9)],
     ]
 }
 
@@ -742,7 +884,7 @@ pub fn run(tier: &str, seed: u64, widen: bool) -> Report {
     let mut rep = Report::new(
         "C03",
         "real capy CLI + built executable (event trace on stdout) vs Lean model CapyV.Defer.runCompiled (and runSpec) on generated DeferLang programs",
-        "corpus of past failures first (incl. the seeded/C03_1 demo), then seeded random programs: <= 4 nested blocks/loops below the function body, <= 3 defers per block, a defer holds a body (atomic print, or a block with inner labelled loops/blocks, if, conditional break/continue to inner labels, nested defers, <= 3 defer levels), break/continue/return/.try in every position (conditional and as last statement), 2 of 5 programs are built around a frame with an earlier defer + a deferred block with its own jump that is left by a jump, 1 of 5 around two nested loops where the inner one has its own jump and a jump to the outer one past defers of the outer body; each program run under 6 decision sequences of up to 48 decisions; non-trivial = the program has a defer and a jump (break/continue/return/.try); distinct by (program, decisions)",
+        "corpus of past failures first (incl. the seeded/C03_1 demo), then seeded random programs: <= 4 nested blocks/loops below the function body, <= 3 defers per block, a defer holds a body (atomic print, or a block with inner labelled loops/blocks, if, conditional break/continue to inner labels, nested defers, <= 3 defer levels), break/continue/return/.try in every position (conditional and as last statement), 2 of 5 programs are built around a frame with an earlier defer + a deferred block with its own jump that is left by a jump, 1 of 5 around two nested loops where the inner one has its own jump and a jump to the outer one past defers of the outer body, 1 of 10 around a loop whose condition is a block with a jump (oracle only: not in the Lean model); each program run under 6 decision sequences of up to 48 decisions; non-trivial = the program has a defer and a jump (break/continue/return/.try); distinct by (program, decisions)",
     );
     if !e2e::available() {
         rep.notes.push("capy CLI binary missing".into());
@@ -766,14 +908,25 @@ pub fn run(tier: &str, seed: u64, widen: bool) -> Report {
     let progs: Vec<Program> = cases.iter().map(|(b, o)| Program::single(&to_capy(b, o))).collect();
     let outcomes = e2e::run_all(&progs, e2e::Limits::default());
     // ask the model
+    // programs with a block-conditioned loop are outside the Lean model: oracle only
+    let modelled = |b: &[Stmt]| !any(b, &|s| matches!(s, Stmt::LoopC(..)));
     let mut reqs = vec![];
     for (b, os) in &cases {
+        if !modelled(b) {
+            continue;
+        }
         for o in os {
             let bits: String = if o.is_empty() { "-".into() } else { o.iter().map(|x| if *x { '1' } else { '0' }).collect() };
             reqs.push(format!("C03 run 1000 {} {}", bits, sexp(b)));
         }
     }
-    let answers = lean::ask(&reqs);
+    let mut model_answers = lean::ask(&reqs).into_iter();
+    let mut answers = vec![];
+    for (b, os) in &cases {
+        for _ in os {
+            answers.push(if modelled(b) { model_answers.next().unwrap_or_else(|| "?".into()) } else { "?".to_string() });
+        }
+    }
     let mut ai = 0;
     for ((b, os), out) in cases.iter().zip(outcomes.iter()) {
         let sx = sexp(b);
